@@ -367,6 +367,15 @@ def fixed_families():
                           for vi, ws in enumerate(chain)], "units": units, "salt": "mixed", "kind": "fixed-mixed"}
 
 
+def wide_families():
+    """ramps over 32 / 40 / 64 groups (the first share grows, so every prefix share grows): positions stay contiguous slices
+    whatever the number of groups"""
+    units = [M.enc(u) for u in ["u%d" % i for i in range(60)] + ["", 0, None]]
+    for n, salt in ((32, None), (40, "wide"), (64, "")):
+        yield {"family": [[str(a)] + ["1"] * (n - 1) for a in (1, 3, 10, 40)], "units": units, "salt": salt, "kind": "fixed-wide-%d" % n}
+        yield {"family": [[str(1 + (i * 7) % 5 + (a if i < n // 2 else 0)) for i in range(n)] for a in (0, 2, 9)], "units": units, "salt": salt, "kind": "fixed-wide-uneven-%d" % n}
+
+
 SPELL = {"plain": lambda w: str(w), "x7": lambda w: str(7 * w), "padded": lambda w: "%04d" % w, "nano": lambda w: "0.%09d" % w,
          "tenths": lambda w: "%d.%d" % (w // 10, w % 10), "micro": lambda w: "0.%06d" % w, "x1e6": lambda w: str(w * 10 ** 6), "float": lambda w: "%d.0" % w,
          "x1e20": lambda w: str(w * 10 ** 20), "x1e299": lambda w: str(w * 10 ** 299), "x1e16.0": lambda w: str(w * 10 ** 16) + ".0", "1e-10": lambda w: "0.%010d" % w, "1e-15": lambda w: "0.%015d" % w,
@@ -570,6 +579,9 @@ def run(ctx, rec):
         if rec.violations:
             return
         runner.direct_run(ctx, rec, "fixed-families-in-every-spelling", fixed_families(), judge)
+        if rec.violations:
+            return
+        runner.direct_run(ctx, rec, "ramps-over-many-groups", wide_families(), judge)
         if rec.violations:
             return
         runner.direct_run(ctx, rec, "same-shares-other-spelling", spelling_cases(), judge_spellings)
